@@ -612,7 +612,13 @@ class Universe:
             if g is not None and xa.spatialGrid is not None and xa.spatialGrid.armiObject is xa:
                 # (a Cartesian block without a pin lattice uses a grid it does not own - the core's;
                 # where the owner lies outside the copied subtree the statement promises nothing)
-                if g.armiObject is not x:
+                # (a grid that several objects of the original use - blocks that went through a copy of a
+                # Cartesian assembly keep sharing one - may name any of its users in the copy as its owner)
+                # - unless the owner is the container of all the others (a core and its blocks): it stays the owner
+                sharers = [xb for xo, xb in zip(a, b) if xo.spatialGrid is xa.spatialGrid]
+                below = {id(d) for d in self.walk_deep(x)}
+                contains_the_rest = all(xb is x or id(xb) in below for xb in sharers)
+                if g.armiObject is not x and not (len(sharers) > 1 and not contains_the_rest and any(g.armiObject is xb for xb in sharers)):
                     self.fail("C01.copy", f"step {k}: in the {op}, the grid of {x} belongs to {g.armiObject}", what="relink-grid", op=op)
                 for ca, c in zip(list(xa), list(x)):
                     lg = getattr(c.spatialLocator, "grid", None)
